@@ -645,6 +645,7 @@ class Sym:
         if c.lazy_sqrt:
             y = c.fresh("sqrt")
             c.assume(z3.Implies(self.e >= 0, z3.And(y >= 0, y * y == self.e)), defines=y)
+            _sqrt_monotone(c, self.e, y, lazy=True)
             c.calls["sqrt"].append((self.e, y))
             c.nonneg_ids.add(y.get_id())
             c.sqrt_memo[(self.e.get_id(), True)] = (y, self.e < 0, self.e)
@@ -655,6 +656,7 @@ class Sym:
             return NAN
         y = c.fresh("sqrt")
         c.assume(z3.And(y >= 0, y * y == self.e), defines=y)
+        _sqrt_monotone(c, self.e, y, lazy=False)
         c.calls["sqrt"].append((self.e, y))
         c.nonneg_ids.add(y.get_id())
         c.sqrt_memo[(self.e.get_id(), False)] = (y, None, self.e)
@@ -719,6 +721,14 @@ class Sym:
     def minimum(self, o):
         oz = _tz(o)
         return Sym(z3.If(self.e <= oz, self.e, oz))
+
+
+def _sqrt_monotone(c, x, y, lazy, last=6):
+    """Sound lemma: sqrt is strictly increasing, so the order of two roots is the order of their
+    (non-negative) radicands. Lets the solver decide root comparisons on the radicands."""
+    for xp, yp in c.calls["sqrt"][-last:]:
+        guard = z3.And(x >= 0, xp >= 0) if lazy else z3.BoolVal(True)
+        c.assume(z3.Implies(guard, z3.And((y < yp) == (x < xp), (y == yp) == (x == xp))), defines=y)
 
 
 def _special_bin(s, o, f, swap):
